@@ -232,7 +232,6 @@ impl Compactor {
                 let tables = self.storage.tables.read().clone();
                 #[cfg(risinglight_verif)]
                 crate::verif::point("cp.pass.begin", "").await;
-                let pin_version = self.storage.version.pin();
                 for (_, table) in tables {
                     #[cfg(risinglight_verif)]
                     crate::verif::point("cp.table", &table.table_id().to_string()).await;
@@ -240,9 +239,15 @@ impl Compactor {
                         .storage
                         .txn_mgr
                         .try_lock_for_compaction(table.table_id())
-                        && let Err(err) = self.compact_table(&pin_version.snapshot, table).await
                     {
-                        warn!("failed to compact: {:?}", err);
+                        // Pin the snapshot only now that the table's lock is held: a snapshot
+                        // pinned once per pass, before the lock, misses the delete vectors of
+                        // DELETEs that commit on this table in the meantime, and compacting from
+                        // it brings the deleted rows back.
+                        let pin_version = self.storage.version.pin();
+                        if let Err(err) = self.compact_table(&pin_version.snapshot, table).await {
+                            warn!("failed to compact: {:?}", err);
+                        }
                     }
                 }
                 #[cfg(risinglight_verif)]
